@@ -1,7 +1,7 @@
 """C09 — u-muP parameter tags survive any history of copies, pickling and transforms.
 
 Explorer kind H.  (1) Stateless: every sequence of length 0..3 (quick) / 0..4 (thorough)
-over a 15-operation alphabet, from each of 12 initial states, replayed on fresh objects.
+over a 16-operation alphabet, from each of 12 initial states, replayed on fresh objects.
 (2) Stateful: breadth-first search to FIXPOINT over a canonical abstract state that includes
 the implementation-hidden bits (presence of the per-instance copy/pickle hooks), giving an
 unbounded-depth result for the abstraction.  Reference model: a plain tuple
@@ -15,7 +15,7 @@ from typing import Any, Dict, List, Optional, Tuple
 
 PROPERTY = "C09"
 OPS = ["copy_p", "copy_M", "pickle_p", "pickle_M", "save_p", "save_M", "to_f64", "half",
-       "load_sd", "toggle_rg", "simulate_fp8", "unit_scale", "dump_p_keep", "dump_M_keep", "write"]
+       "load_sd", "toggle_rg", "simulate_fp8", "unit_scale", "dump_p_keep", "dump_M_keep", "write", "track_scales"]
 TAGS = ["weight", "bias", "norm", "output"]
 DEPTHS = [None, 1, 7]
 MAXLEN = {"quick": 3, "thorough": 4}
@@ -25,7 +25,7 @@ RULE = (
     "fixpoint case per initial state; states = histories; non-trivial = history length >= 2"
 )
 BOUND = {
-    "quick": "all 3616 sequences of length <=3 over 15 ops x 12 initial states (every earlier object of a history keeps its values and storage); BFS to fixpoint on "
+    "quick": "all 4369 sequences of length <=3 over 16 ops x 12 initial states (every earlier object of a history keeps its values and storage); BFS to fixpoint on "
     "(tag, depth, dtype, requires_grad, hook bits, transformed bit, holder class)",
     "thorough": "all 41371 sequences of length <=4 x 12 initial states; BFS to fixpoint",
 }
@@ -37,6 +37,8 @@ ASSUMPTIONS = [
     "transform installs a local closure as forward); such histories are counted as unrealisable, "
     "not as violations; parameter-level pickling must always work",
     "transforms are applied without running forward (the deep copy happens at application time)",
+    "track_scales is documented to come last: histories applying another transform after it are counted as unrealisable "
+    "(unit_scale(track_scales(m)) raises AttributeError in _order_backends on the pinned tree - observation, outside the statement)",
 ]
 
 
@@ -161,6 +163,15 @@ def _apply(op: str, M: Any, p: Any, model: Dict[str, Any], step: int) -> Tuple[A
         M2 = simulate_fp8(M)
         model["transformed"] = True
         return M2, M2.weight
+    if model.get("tracked") and op in ("simulate_fp8", "unit_scale", "track_scales"):
+        raise Unrealisable("track_scales is documented to come last in a chain of transforms")
+    if op == "track_scales":
+        from unit_scaling.transforms import track_scales
+
+        M2 = track_scales(M)
+        model["transformed"] = True
+        model["tracked"] = True
+        return M2, M2.weight
     if op == "unit_scale":
         from unit_scaling.transforms import unit_scale
 
@@ -257,7 +268,7 @@ def _replay(tag: str, depth: Optional[int], hist: List[str], check_from: int = 0
                     break
             if bad:
                 return {"bad": bad, "at": i + 1}
-    key = (model["dtype"], model["rg"], model["transformed"], type(M).__name__,
+    key = (model["dtype"], model["rg"], model["transformed"], bool(model.get("tracked")), type(M).__name__,
            "__deepcopy__" in p.__dict__, "__reduce_ex__" in p.__dict__, min(len(getattr(M, "backends", [])), 2))  # 0, 1, "2 or more" nested transforms
     return {"bad": [], "state": key}
 
